@@ -614,6 +614,33 @@ inductive Edit where
   | popOutput (g : Nat)
   deriving Repr
 
+
+/-- the objects an edit is applied to / given as operands -/
+def Edit.args : Edit → List Nat
+  | .setName v _ => [v]
+  | .setType v _ => [v]
+  | .setDtype v _ => [v]
+  | .setTypeDenot v _ => [v]
+  | .setShape v _ => [v]
+  | .setDim v _ _ => [v]
+  | .setDimDenot v _ _ => [v]
+  | .setConst v _ => [v]
+  | .setDoc v _ => [v]
+  | .dictSet o _ _ _ => [o]
+  | .dictDel o _ _ => [o]
+  | .metaInvalidate o _ => [o]
+  | .replaceInput n _ v => n :: v.toList
+  | .setNodeName n _ => [n]
+  | .setOpType n _ => [n]
+  | .setAttr n _ _ => [n]
+  | .delAttr n _ => [n]
+  | .setGraphName g _ => [g]
+  | .setOpset g _ _ => [g]
+  | .removeNode g n => [g, n]
+  | .appendNode g _ _ inputs _ => g :: inputs.filterMap id
+  | .appendOutput g v => [g, v]
+  | .popOutput g => [g]
+
 def dictErase (d : List (String × β)) (k : String) : List (String × β) :=
   d.filter (fun e => e.1 != k)
 
@@ -640,6 +667,28 @@ def dropSharding (ns : NodeS) (v : Nat) : NodeS :=
   if ns.inputs.contains (some v) || ns.outputs.contains v then ns
   else { ns with dev := ns.dev.map fun c =>
           { c with specs := c.specs.filter (fun sp => sp.value != some v) } }
+
+/-- `if old_input is not None: old_input._remove_usage(self, index)` -/
+def removeUseOpt (old : Option Nat) (n i : Nat) : M Unit :=
+  match old with
+  | some o => removeUse o n i
+  | none => pure ()
+
+/-- `if value is not None: value._add_usage(self, index)` -/
+def addUseOpt (v : Option Nat) (n i : Nat) : M Unit :=
+  match v with
+  | some x => addUse x n i
+  | none => pure ()
+
+/-- `if old_input is not None and old_input is not value: self._drop_sharding_for_value(old_input)` -/
+def dropShardingStep (n : Nat) (old v : Option Nat) : M Unit :=
+  match old with
+  | some o =>
+    if old != v then do
+      let nn ← readNode n
+      setCell n (.node (dropSharding nn o))
+    else pure ()
+  | none => pure ()
 
 def setOutputNames : List Nat → List String → M Unit
   | v :: vs, nm :: nms => do
@@ -739,19 +788,9 @@ def applyEdit : Edit → M Unit
     if i < ns.inputs.length then do
       let old := (ns.inputs[i]?).join
       setCell n (.node { ns with inputs := ns.inputs.set i v })
-      match old with
-      | some o => removeUse o n i
-      | none => pure ()
-      match v with
-      | some x => addUse x n i
-      | none => pure ()
-      match old with
-      | some o =>
-        if old != v then do
-          let nn ← readNode n
-          setCell n (.node (dropSharding nn o))
-        else pure ()
-      | none => pure ()
+      removeUseOpt old n i
+      addUseOpt v n i
+      dropShardingStep n old v
     else raise "index out of range"
   | .setNodeName n s => do
     let ns ← readNode n
@@ -828,5 +867,28 @@ def applyEdits : List Edit → M Unit
 def run (m : M α) (w : World) : Except Err α × World :=
   match m { w := w } with
   | (r, s) => (r, s.w)
+
+
+/-- an edit history: every edit is attempted in order; an edit that raises leaves whatever it had
+    already written (as in Python) and the history goes on -/
+def runHistory : List Edit → World → List (Except Err Unit) × World
+  | [], w => ([], w)
+  | e :: es, w =>
+    match run (applyEdit e) w with
+    | (r, w1) =>
+      match runHistory es w1 with
+      | (rs, w2) => (r :: rs, w2)
+
+/-- the pointers editing calls follow from a cell (to find the cells they write) -/
+def followed : Cell → List Nat
+  | .val v => v.type.toList ++ v.shape.toList ++ [v.props, v.mstore] ++ v.graph.toList
+  | .node n => n.inputs.filterMap id ++ [n.props, n.mstore]
+  | .graph g => g.outputs ++ [g.props, g.mstore]
+  | .model m => [m.props, m.mstore]
+  | _ => []
+
+/-- no dangling pointers: what holds of every heap abstracted from live Python objects -/
+def wellFormed (w : World) : Bool :=
+  w.all fun c => (followed c).all fun p => p < w.length
 
 end IrVerif.Clone
